@@ -55,8 +55,8 @@ theorem seekTS_found (hP : entryLimit ≤ P.maxEntry) (ctx : SeekCtx tsOf lines)
     intro h
     have := (render_nil_iff lines).1 h
     subst this; simp at hi
-  obtain ⟨N1, x, N2, d', hM, hx, hloop⟩ :=
-    seekLoop_found P tsOf target lines hP ctx hsize lines.length [] lines [] maxDepth 0 0
+  obtain ⟨N1, x, N2, d', hM, hx, hbound, hloop⟩ :=
+    seekLoop_found P tsOf target lines hP ctx.le hsize lines.length [] lines [] maxDepth 0 0
       (fileOfLines lines).size (((fileOfLines lines).size - 0) / 2) none (Nat.le_refl _) (by simp)
       ⟨lines[i], List.getElem_mem hi, hts⟩ rfl rfl (by simp [fileOfLines_size]) (by omega)
       (by intro y hy; cases hy) (by simp)
@@ -77,7 +77,7 @@ theorem seekTS_found (hP : entryLimit ≤ P.maxEntry) (ctx : SeekCtx tsOf lines)
 /-- Seeking an absent timestamp fails with the report of its position and leaves
 the position untouched (the buffer is dropped).  An empty file reports
 `tooEarly` (repair daf1642), which is `absentErr` of no lines. -/
-theorem seekTS_absent (hP : entryLimit ≤ P.maxEntry) (ctx : SeekCtx tsOf lines)
+theorem seekTS_absent_le (hP : entryLimit ≤ P.maxEntry) (ctx : SeekCtxLe tsOf lines)
     (hsize : (render lines).length < 2 ^ 63) (habs : ∀ l ∈ lines, tsOf l ≠ target) (q : QState) :
     seekTS P (fileOfLines lines) tsOf q target =
       ({ q with hasBuf := false }, .error (absentErr tsOf target lines)) := by
@@ -94,6 +94,43 @@ theorem seekTS_absent (hP : entryLimit ≤ P.maxEntry) (ctx : SeekCtx tsOf lines
         (by intro y hy; cases hy) (by intro _; simp) (by intro _; omega)
     unfold seekTS
     simp only [hsz, if_false, hloop]
+
+theorem seekTS_absent (hP : entryLimit ≤ P.maxEntry) (ctx : SeekCtx tsOf lines)
+    (hsize : (render lines).length < 2 ^ 63) (habs : ∀ l ∈ lines, tsOf l ≠ target) (q : QState) :
+    seekTS P (fileOfLines lines) tsOf q target =
+      ({ q with hasBuf := false }, .error (absentErr tsOf target lines)) :=
+  seekTS_absent_le P tsOf target lines hP ctx.le hsize habs q
+
+/-- Equal timestamps in neighbouring lines (weakly increasing): seeking a stored
+timestamp still succeeds, and lands on SOME entry carrying it — the one the
+binary search probes first, not necessarily the first or the last of the run. -/
+theorem seekTS_found_le (hP : entryLimit ≤ P.maxEntry) (ctx : SeekCtxLe tsOf lines)
+    (hsize : (render lines).length < 2 ^ 63) (hex : ∃ l ∈ lines, tsOf l = target) (q : QState) :
+    ∃ (i : Nat) (hi : i < lines.length) (d : Nat), tsOf lines[i] = target ∧
+      seekTS P (fileOfLines lines) tsOf q target =
+        ({ q with hasBuf := false, position := (render (lines.take (i + 1))).length - 1 },
+         .ok ((render (lines.take (i + 1))).length - 1, d)) := by
+  obtain ⟨l, hl, hlt⟩ := hex
+  have hne : (fileOfLines lines).size ≠ 0 := by
+    rw [fileOfLines_size]
+    intro h
+    have := (render_nil_iff lines).1 h
+    subst this; simp at hl
+  obtain ⟨N1, x, N2, d', hM, hx, hbound, hloop⟩ :=
+    seekLoop_found P tsOf target lines hP ctx hsize lines.length [] lines [] maxDepth 0 0
+      (fileOfLines lines).size (((fileOfLines lines).size - 0) / 2) none (Nat.le_refl _) (by simp)
+      ⟨l, hl, hlt⟩ rfl rfl (by simp [fileOfLines_size]) (by omega)
+      (by intro y hy; cases hy) (by simp)
+  have hlen : N1.length < lines.length := by rw [hM]; simp
+  have hxi : lines[N1.length] = x := by simp [hM]
+  have htake : lines.take (N1.length + 1) = N1 ++ [x] := by
+    conv => lhs; rw [hM]
+    simp [List.take_append, List.take_of_length_le]
+  have hpos : (render (lines.take (N1.length + 1))).length - 1 = (render ([] ++ N1)).length + x.length := by
+    rw [htake, render_snoc_length]; simp
+  refine ⟨N1.length, hlen, d', by rw [hxi]; exact hx, ?_⟩
+  unfold seekTS
+  simp only [hne, if_false, hloop, hpos]
 
 /-- What the code does with a stored timestamp of exactly 0 ns (1970-01-01T00:00:00Z,
 or any record whose timestamp `readQLogTimestamp` cannot read): when the first
